@@ -103,6 +103,9 @@ impl<T> VpIter<T> {
         ensures r.rest().len() == self.rest().len(), forall|k: int| 0 <= k < self.rest().len() ==> (#[trigger] r.rest()[k]).0 == k && r.rest()[k].1 == self.rest()[k],
     { unimplemented!() }
 }
+/// rule R9: `v.extend(iter)` is rewritten to `vp_vec_extend(&mut v, iter)`
+#[verifier::external_body]
+pub fn vp_vec_extend<T>(v: &mut Vec<T>, it: VpIter<T>) ensures final(v)@ == old(v)@ + it.rest() { unimplemented!() }
 /// rule R9: `LIST.contains(&s)` on a constant list of string literals
 #[verifier::external_body]
 pub fn vp_str_list_contains<const N: usize>(list: &[&str; N], s: &str) -> (r: bool)
